@@ -726,13 +726,25 @@ def threaded_events(ctx: Ctx, rnd: random.Random, q: bool) -> list:
             sch = LineScheduler(files_cache, stall_s=0.02)
             order = [names.index(t) for t in sched if t in names for _ in range(stretch)] + [rnd.randrange(len(names)) for _ in range(60)]
             hung = sch.run([cbody(tn) for tn in names], order)
-            tail_ok = True
-            try:
-                for key in [101, 102, 103, 1, 2, 3, 104, 105, 1, 2, 3]:
-                    tail_ok = tail_ok and cache.get_or_add(key) == ("value of", key)
-                tail_ok = tail_ok and cache.count() <= 2
-            except Exception:  # noqa: BLE001
-                tail_ok = False
+            # (the tail runs in its own thread under a watchdog: a cache that stops answering must not stop the check)
+            box = {"ok": False}
+
+            def tail(cache=cache, box=box):
+                ok = True
+                try:
+                    for key in [101, 102, 103, 1, 2, 3, 104, 105, 1, 2, 3]:
+                        ok = ok and cache.get_or_add(key) == ("value of", key)
+                    ok = ok and cache.count() <= 2
+                except Exception:  # noqa: BLE001
+                    ok = False
+                box["ok"] = ok
+
+            tt = threading.Thread(target=tail, daemon=True)
+            tt.start()
+            tt.join(5.0)
+            if tt.is_alive():
+                hung = True
+            tail_ok = box["ok"]
             evs.append({"op": "thr", "what": "least_recently_added_cache", "all_pure": all(o[1] for o in out) and tail_ok, "identity_stable": True,
                         "hung": bool(hung), "n": len(out)})
     # schedules from the lazy-zone-map model, on a fresh provider over the real data
